@@ -1,9 +1,9 @@
 #!/bin/bash
-# tools/confirm_mut.sh <Cxx> <m1|m2> : confirm a seeded change in its scratch worktree against the
-# current /repo HEAD and store it under /verif/seeded/<Cxx>-<mN>/
+# tools/confirm_mut.sh <worktree> <m1|m2> <seed-id> : confirm a seeded change in its scratch
+# worktree against the current /repo HEAD and store it under /verif/seeded/<seed-id>/
 set -u
-P="$1"; M="$2"
-WT=/tmp/mut/$P; OUT=$WT/_out
+WT="$1"; M="$2"; SID="$3"
+OUT=$WT/_out
 export GOFLAGS=-mod=mod GOPROXY=off GOSUMDB=off GOTOOLCHAIN=local
 cd $WT || exit 2
 git checkout -q -- . ; git checkout -q --detach main 2>/dev/null
@@ -11,21 +11,21 @@ head=$(git rev-parse --short HEAD)
 demo=$OUT/${M}_demo_test.go
 place=$(head -1 $demo | sed -n 's/.*place in: *\([^ ]*\).*/\1/p'); place=${place%/}
 [ -z "$place" ] && place=test
-res=/tmp/mut/confirm_${P}_${M}.txt; : > $res
+res=/tmp/confirm_${SID}.txt; : > $res
 if ! git apply --check $OUT/$M.patch 2>/dev/null; then echo "patch does not apply on $head" | tee -a $res; exit 1; fi
 git apply $OUT/$M.patch
 go build ./... >>$res 2>&1 || { echo "BUILD FAILS" | tee -a $res; git checkout -q -- .; exit 1; }
-suite=$(go test -vet=off -count=1 ./... 2>&1 | grep -c "^ok")
-suitefail=$(go test -vet=off -count=1 ./... 2>&1 | grep -c "^FAIL\|^---")
+suitefail=0
+for i in 1 2; do f=$(go test -vet=off -count=1 ./... 2>&1 | grep -c "^FAIL\|^--- FAIL"); suitefail=$((suitefail+f)); done
 cp $demo $place/zz_seeded_demo_test.go
 demo_with=$(go test -vet=off -count=1 -run 'Test' ./$place 2>&1 | grep -c "^--- FAIL\|^FAIL\|panic:")
 git apply -R $OUT/$M.patch
 demo_without=$(go test -vet=off -count=1 -run 'Test' ./$place 2>&1 | grep -c "^--- FAIL\|^FAIL\|panic:")
 rm -f $place/zz_seeded_demo_test.go
 git checkout -q -- .
-echo "head=$head suite_ok_pkgs=$suite suite_failures=$suitefail demo_failures_with=$demo_with demo_failures_without=$demo_without" | tee -a $res
+echo "head=$head suite_failures=$suitefail demo_failures_with=$demo_with demo_failures_without=$demo_without" | tee -a $res
 if [ "$suitefail" = 0 ] && [ "$demo_with" != 0 ] && [ "$demo_without" = 0 ]; then
-  d=/verif/seeded/$P-$M; mkdir -p $d
+  d=/verif/seeded/$SID; mkdir -p $d
   cp $OUT/$M.patch $d/patch.diff; cp $demo $d/demo_test.go; cp $OUT/$M.txt $d/notes.txt
   echo CONFIRMED | tee -a $res
 else
